@@ -9,6 +9,7 @@ import (
 	"sort"
 	"strconv"
 	"strings"
+	"sync"
 	"time"
 
 	wt "github.com/hnakamur/whispertool"
@@ -36,7 +37,7 @@ func (c10) Meta() fw.Meta {
 			"values are chosen so that floating-point addition is exact: the property is about WHICH values are added, not about association order",
 			"directory names contain no dots (items are dotted paths)",
 		},
-		Obligations: []string{"function_sums", "cli_sums", "slots_summed", "slot_all_nan", "slot_single_contributor", "first_file_hole", "single_file_item", "layout_mismatch_rejected", "no_match_item", "no_match_file", "unclean_base_spelling", "single_archive_selection", "edge_window", "file_pattern_with_directory", "remote_sums", "slow_first_item_runs", "remote_sums_with_concurrent_clients", "server_socket_writes_delayed", "concurrent_noise_requests_served", "remote_sums_of_long_archives", "sums_after_failed_reads"},
+		Obligations: []string{"function_sums", "cli_sums", "slots_summed", "slot_all_nan", "slot_single_contributor", "first_file_hole", "single_file_item", "layout_mismatch_rejected", "no_match_item", "no_match_file", "unclean_base_spelling", "single_archive_selection", "edge_window", "file_pattern_with_directory", "remote_sums", "slow_first_item_runs", "remote_sums_with_concurrent_clients", "server_socket_writes_delayed", "concurrent_noise_requests_served", "remote_sums_of_long_archives", "sums_after_failed_reads", "symlinked_source_files", "concurrent_remote_sums_differing_in_clock"},
 		Workers:     12,
 	}
 }
@@ -104,6 +105,20 @@ func buildSumTree(r *rand.Rand, base string, l model.Layout, now int64, c *fw.Ct
 			name := fmt.Sprintf("h%02d.wsp", i)
 			names = append(names, name)
 			li := l
+			if di == 0 && i == 1 {
+				// one source of the first item is a symbolic link to a whisper file stored elsewhere
+				real := filepath.Join(base+"-real", d, name)
+				writeFixture(real, li, conts[i], now)
+				mustMkdir(filepath.Join(base, d))
+				os.Remove(filepath.Join(base, d, name))
+				if err := os.Symlink(real, filepath.Join(base, d, name)); err != nil {
+					panic(err)
+				}
+				if c != nil {
+					c.Count("symlinked_source_files", 1)
+				}
+				continue
+			}
 			writeFixture(filepath.Join(base, d, name), li, conts[i], now)
 		}
 		sort.Strings(names)
@@ -335,6 +350,49 @@ func (c10) Run(c *fw.Ctx) {
 				}
 			}
 		})
+		if !c.Violated() {
+			// two sums of the same item, pattern and window in flight at once, differing ONLY in the clock they name (the
+			// first source is locked for a moment so that both are being served together): each is answered for its clock
+			a0 := l.Archs[0]
+			nowA, nowB := vnow, vnow+int64(a0.Step)*int64(2+r.Intn(5))
+			if nowB+2*l.MaxStep() < 1<<32 {
+				wantA, _ := expectedSum(vt, "grpA", -1, 0, nowA+500, nowA, c)
+				wantB, _ := expectedSum(vt, "grpA", -1, 0, nowA+500, nowB, c)
+				if hold, err := wt.Open(filepath.Join(vt.Base, "grpA", vt.Items["grpA"][0])); err == nil {
+					var gotA, gotB wcmd.TimeSeriesList
+					var errA, errB error
+					var wg sync.WaitGroup
+					wg.Add(2)
+					go func() {
+						defer wg.Done()
+						_, gotA, errA = wcmd.VerifSumWhisperFile(u, name+".grpA", "*.wsp", -1, 0, u32(nowA+500), u32(nowA))
+					}()
+					go func() {
+						defer wg.Done()
+						time.Sleep(50 * time.Millisecond)
+						_, gotB, errB = wcmd.VerifSumWhisperFile(u, name+".grpA", "*.wsp", -1, 0, u32(nowA+500), u32(nowB))
+					}()
+					time.Sleep(time.Duration(250+r.Intn(150)) * time.Millisecond)
+					hold.Close()
+					wg.Wait()
+					c.Count("concurrent_remote_sums_differing_in_clock", 1)
+					if errA != nil || errB != nil {
+						c.Violationf("remote-sum-error", fw.J{"errA": fmt.Sprint(errA), "errB": fmt.Sprint(errB)}, "concurrent remote sums failed: %v / %v", errA, errB)
+					} else {
+						for ai := range l.Archs {
+							if msg := seriesEqual(gotA[ai], wantA[ai]); msg != "" {
+								c.Violationf("sum-differs", fw.J{"via": "server, two sums in flight", "clock": nowA, "other_clock": nowB, "archive": ai}, "remote sum at clock %d (another sum of the same item at clock %d in flight), archive %d differs: %s", nowA, nowB, ai, msg)
+								break
+							}
+							if msg := seriesEqual(gotB[ai], wantB[ai]); msg != "" {
+								c.Violationf("sum-differs", fw.J{"via": "server, two sums in flight", "clock": nowB, "other_clock": nowA, "archive": ai}, "remote sum at clock %d (another sum of the same item at clock %d in flight), archive %d differs: %s", nowB, nowA, ai, msg)
+								break
+							}
+						}
+					}
+				}
+			}
+		}
 		if c.Index%4 == 0 && !c.Violated() {
 			// long archives (responses of tens of kilobytes, written to the socket in several delayed writes) summed
 			// while other clients fetch the very files being summed
